@@ -4081,7 +4081,7 @@ validate_trait_adapt(
 +----------------------------------------------------------------------------*/
 
 static PyObject *
-validate_trait_complex(
+validate_trait_complex_body(
     trait_object *trait, has_traits_object *obj, PyObject *name,
     PyObject *value)
 {
@@ -4372,6 +4372,27 @@ error:
 done:
     Py_INCREF(value);
     return value;
+}
+
+/*-----------------------------------------------------------------------------
+|  Verifies a Python value satisifies a complex trait definition. A member's
+|  validator can resolve a forward reference and install a new validator on
+|  this very trait (releasing the tuple of alternatives being walked), so the
+|  current validator is kept alive for the duration of the walk:
++----------------------------------------------------------------------------*/
+
+static PyObject *
+validate_trait_complex(
+    trait_object *trait, has_traits_object *obj, PyObject *name,
+    PyObject *value)
+{
+    PyObject *result;
+    PyObject *py_validate = trait->py_validate;
+
+    Py_INCREF(py_validate);
+    result = validate_trait_complex_body(trait, obj, name, value);
+    Py_DECREF(py_validate);
+    return result;
 }
 
 /*-----------------------------------------------------------------------------
